@@ -7,6 +7,17 @@ ROOT = os.path.dirname(os.path.dirname(os.path.abspath(__file__)))
 ALL = ["C%02d" % i for i in range(1, 21)]
 
 CLAIMED = {
+    "C18": dict(
+        category="model_checking",
+        text="MC_Algebra model-checks the spec's GF(2)[X] against the Euclidean-ring laws (all operand pairs) and its GF(2^m) against the field laws "
+             "(all pairs / triples for small m); MC_Order walks, one multiplication per TLC state (65 535 states for m=16), the powers of the element "
+             "the implementation designates as primitive under the modulus it publishes, for every m in 1..16. Trace_Algebra then validates the "
+             "implementation's products, divisions, gcd/lcm, derivatives, field sums/products/powers/inverses/traces/conjugates/minimal polynomials "
+             "against that arithmetic (exhaustive pairs for small sizes, seeded up to degree 200 and m = 16).",
+        design_ref="7/C18",
+        note="TLC 32-bit integers: operands of Poly events stay below degree 16, larger ones are exponent sets; field triples are covered at design level plus "
+             "pairwise agreement of the implementation with the spec arithmetic.",
+        technique="TLA+ spec Algebra + TLC: law model checking, order walk by state exploration, trace validation of recorded results"),
     "C01": dict(
         category="model_checking",
         text="MC_GF2 proves by exhaustive model checking (all matrix pairs, n<=5) the linear-algebra lemmas the verdict rests on (rank = dim of span, "
